@@ -244,12 +244,39 @@ impl<'a> Arguments<'a> {
         expected_count: u8,
     ) -> Result<Location<'a>, error::Argument> {
         let actual_count = self.arg_count();
-        let Some(argument) = self.next_argument_str() else {
-            return Err(error::Argument::MissingArgument {
+        self.next_location_or(
+            argument_name,
+            Err(error::Argument::MissingArgument {
                 argument_name,
                 expected_count,
                 actual_count,
-            });
+            }),
+        )
+    }
+
+    /// Parse next argument as a [`Location`], defaulting to current value of program counter if no
+    /// argument is given.
+    ///
+    /// Program counter is returned as [`MemoryLocation::PCOffset`], so will always be correct.
+    pub fn next_location_or_default(
+        &mut self,
+        argument_name: &'static str,
+    ) -> Result<Location<'a>, error::Argument> {
+        self.next_location_or(
+            argument_name,
+            Ok(Location::Memory(MemoryLocation::PCOffset(0))),
+        )
+    }
+
+    /// Parse next argument as a [`Location`]. Use default `Result` value if no argument is given.
+    // Do not change `default` param to a function unless lazy evaluation is ACTUALLY desirable
+    fn next_location_or(
+        &mut self,
+        argument_name: &'static str,
+        default: Result<Location<'a>, error::Argument>,
+    ) -> Result<Location<'a>, error::Argument> {
+        let Some(argument) = self.next_argument_str() else {
+            return default;
         };
 
         // Don't perform a preliminary type check here
